@@ -100,8 +100,11 @@ def gen_ops(rng, n_shots, n_calcs, length):
             ops.append(["danger", i, c, 450.0, rng.choice([100.0, 300.0, 440.0, 2000.0]), rng.choice([0.5, 3.0])])
         elif k < 0.88:
             ops.append(["model", i, rng.choice(["multi", "plain", "multi_dicts", "multi_pooled", "multi_pooled"])])
-        elif k < 0.91:
+        elif k < 0.905:
             ops.append(["fire", i, c, 60000.0, 6000.0, rng.random() < 0.5, 0.0])      # beyond reach: RangeError
+        elif k < 0.915:
+            # a card of a few feet tabulated every inch (record step below the solver's own step), or a range of a foot
+            ops.append(["fire", i, c, rng.choice([2.0, 1.0]), rng.choice([1.0 / 12.0, 0.1]), False, 0.0])
         elif k < 0.93:
             ops.append(["unit_error", i])
         elif k < 0.955:
@@ -363,6 +366,16 @@ def check_isolation(ctx, case):
             d = diff(want_res, got_res)
             ctx.violation("isolation.result-depends-on-other-arguments", f"the result for an untouched argument set changed after a separately built "
                                                                          f"set was edited: at {d[0] if d else '?'}", case)
+        # ... nor does the library's public debug-logging switch
+        pb.set_debug(True)
+        try:
+            logged = use(set_b)
+        finally:
+            pb.set_debug(False)
+        ctx.count("isolation_results_compared", len(logged))
+        if logged != want_res:
+            d = diff(want_res, logged)
+            ctx.violation("isolation.result-depends-on-debug-logging", f"with set_debug(True) the result for an untouched argument set differs at {d[0] if d else '?'}", case)
         set_c = build_set()
         late_snap = [snap(s) for s in set_c]
         if late_snap != want_snap:
